@@ -167,6 +167,34 @@ fn c13_try_resize_small() {
     kani::cover!(new_len < len);
 }
 
+/// try_resize between CONCRETE lengths (symbolic contents and fill value): robust against
+/// implementations whose cost for the verifier depends on a symbolic element count.
+fn resize_concrete_case(len: usize, new_len: usize) {
+    let a: [bigint::Limb; 4] = kani::any();
+    let mut v = if len <= 4 { StackVec::try_from(&a[..len]).unwrap() } else {
+        let mut t = StackVec::new();
+        t.try_resize(len, a[0]).unwrap();
+        t
+    };
+    let fill: bigint::Limb = kani::any();
+    let r = v.try_resize(new_len, fill);
+    assert!(r == Some(()) && v.len() == new_len, "C13 resize sets the length");
+    let j: usize = kani::any();
+    if j < new_len {
+        let expect = if j < len { if len <= 4 { a[j] } else { a[0] } } else { fill };
+        assert!(slot(&v, j) == expect, "C13 resize keeps the prefix and fills new elements with the value");
+    }
+}
+
+#[kani::proof]
+#[kani::unwind(64)]
+fn c13_try_resize_concrete() {
+    resize_concrete_case(0, 3);
+    resize_concrete_case(2, 4);
+    resize_concrete_case(4, 1);
+    resize_concrete_case(60, 62);
+}
+
 /// normalize: strips exactly the trailing zero limbs, keeps everything else
 /// (at every length; at most 4 trailing zero limbs in this harness).
 #[kani::proof]
